@@ -102,3 +102,75 @@ Theorem C15_refuted_pre_fix_leak_on_error_return :
                cnt_of (hp st) o > 0 /\ open_fds st <> [] /\ mappings st > 0.
 Proof. exact all_released_with_error_return_refuted_pre_fix. Qed.
 Print Assumptions C15_refuted_pre_fix_leak_on_error_return.
+
+(* ---- the ownership model EXTENDED with the history operations of a store
+   (OwnersRevert.v): SnapshotPrevious as it is after repair 8f6c423 (XPrev), SnapshotRevert
+   (XRevert: new footer sharing the mappings of the footer reverted to, new child footers,
+   swap with the store's footer) and Store.OpenCollection on the reverted store (XOpenColl:
+   restoreCollection renumbers the child footers in place), next to every operation of
+   Owners.v (XOp).  The same four statements for every sequence of operations of the
+   extended system; four more scripted scenarios of the owners family tie it to the code *)
+From Moss Require Import OwnersRevert OwnersRevertFacts.
+
+Theorem C15_revert_ownership_invariant :
+  forall ops st, xrun ops = Some st ->
+  forall o, cnt_of (hp st) o = cn o (roots st) + cn o (allrefs (hp st)).
+Proof. exact x_ownership_invariant. Qed.
+Print Assumptions C15_revert_ownership_invariant.
+
+Theorem C15_revert_no_dangling_reference :
+  forall ops st, xrun ops = Some st ->
+  (forall o, In o (roots st) -> cnt_of (hp st) o > 0) /\
+  (forall a ob r, nth_error (hp st) a = Some ob -> In r (orefs ob) ->
+                  o_cnt ob > 0 /\ cnt_of (hp st) r > 0).
+Proof. exact x_no_dangling_reference. Qed.
+Print Assumptions C15_revert_no_dangling_reference.
+
+Theorem C15_revert_handle_data_alive :
+  forall ops st, xrun ops = Some st ->
+  forall hd r o, In hd (handles st) -> In r (hrefs hd) -> reach (hp st) r o ->
+    cnt_of (hp st) o > 0.
+Proof. exact x_handle_data_alive. Qed.
+Print Assumptions C15_revert_handle_data_alive.
+
+Theorem C15_revert_all_closed_all_released :
+  forall ops st,
+  xrun ops = Some st -> all_closed st -> leaked st = [] ->
+  (forall o, cnt_of (hp st) o = 0) /\ open_fds st = [] /\ mappings st = 0.
+Proof. exact x_all_closed_all_released. Qed.
+Print Assumptions C15_revert_all_closed_all_released.
+
+Theorem C15_revert_all_closed_all_released_current_code :
+  forall ops st,
+  forallb xcurrent_code ops = true -> xrun ops = Some st -> all_closed st ->
+  (forall o, cnt_of (hp st) o = 0) /\ open_fds st = [] /\ mappings st = 0.
+Proof. exact x_all_closed_all_released_current_code. Qed.
+Print Assumptions C15_revert_all_closed_all_released_current_code.
+
+(* what SnapshotRevert touches is alive while the handle passed to it is open *)
+Theorem C15_revert_touches_live_objects :
+  forall ops st h t,
+  xrun ops = Some st -> nth_error (handles st) h = Some (HFoot t) ->
+  cnt_of (hp st) t > 0 /\
+  (forall m, In m (refs_of t st) -> cnt_of (hp st) m > 0) /\
+  (forall c m, In c (kids_of t st) -> In m (refs_of c st) ->
+     cnt_of (hp st) c > 0 /\ cnt_of (hp st) m > 0) /\
+  (forall fr, file_ref t st = Some fr -> cnt_of (hp st) fr > 0).
+Proof. exact x_revert_touches_live_objects. Qed.
+Print Assumptions C15_revert_touches_live_objects.
+
+(* PROGRESS of the revert: after every history, with every handle and every outcome, the
+   revert operation runs to its end - no AddRef or DecRef of a released object, no
+   reference given back that is not held, no reference left in a local *)
+From Moss Require Import OwnersRevertProgress.
+Theorem C15_revert_never_faults :
+  forall ops st h m,
+  xrun ops = Some st -> exists st', xrun (ops ++ [XRevert h m]) = Some st'.
+Proof. exact x_revert_never_faults_after_any_history. Qed.
+Print Assumptions C15_revert_never_faults.
+
+(* the extension is conservative: histories of the operations of Owners.v run as before *)
+Theorem C15_revert_model_extends_owners :
+  forall ops, xrun (xops ops) = run ops.
+Proof. exact xrun_embeds. Qed.
+Print Assumptions C15_revert_model_extends_owners.
